@@ -399,6 +399,47 @@ func registerOSModels() {
 		ex.fsTruncate(h.path, h.f, sz)
 		return nilErr()
 	}
+	// golang.org/x/exp/mmap: a read-only view of a model file
+	intrinsics["golang.org/x/exp/mmap.Open"] = func(ex *Exec, fn *ssa.Function, a []Value) Value {
+		fs := ex.getFS()
+		name := ex.concreteString(a[0], "file name")
+		rp, ok := fs.resolve(name, true, 0)
+		n := fs.nodes[rp]
+		ft := fn.Signature.Results().At(0).Type()
+		if !ok || n == nil || n.kind != 0 {
+			return TupleVal{&PtrVal{}, ex.osErr("notexist", "open", name)}
+		}
+		h := &mhandle{path: rp, f: n.file}
+		return TupleVal{ex.newFileValue(h, ft), nilErr()}
+	}
+	intrinsics["(*golang.org/x/exp/mmap.ReaderAt).Close"] = func(ex *Exec, fn *ssa.Function, a []Value) Value {
+		h := ex.handleOf(a[0])
+		h.closed = true
+		return nilErr()
+	}
+	intrinsics["(*golang.org/x/exp/mmap.ReaderAt).Len"] = func(ex *Exec, fn *ssa.Function, a []Value) Value {
+		return ex.intTerm(len(ex.handleOf(a[0]).f.data))
+	}
+	intrinsics["(*golang.org/x/exp/mmap.ReaderAt).ReadAt"] = func(ex *Exec, fn *ssa.Function, a []Value) Value {
+		h := ex.handleOf(a[0])
+		if h.closed {
+			return TupleVal{ex.intTerm(0), ex.newOpaqueError("mmap: closed", nil)}
+		}
+		p := a[1].(*SliceVal)
+		off := ex.intArg(a[2], "ReadAt offset")
+		if off < 0 || off > len(h.f.data) {
+			return TupleVal{ex.intTerm(0), ex.newOpaqueError("mmap: invalid ReadAt offset", nil)}
+		}
+		n := 0
+		for n < p.len && off+n < len(h.f.data) {
+			p.arr.e[p.off+n] = h.f.data[off+n]
+			n++
+		}
+		if n < p.len {
+			return TupleVal{ex.intTerm(n), ioEOF(ex)}
+		}
+		return TupleVal{ex.intTerm(n), nilErr()}
+	}
 	intrinsics["(*os.File).Sync"] = func(ex *Exec, fn *ssa.Function, a []Value) Value { return nilErr() }
 	intrinsics["os.Truncate"] = func(ex *Exec, fn *ssa.Function, a []Value) Value {
 		fs := ex.getFS()
@@ -502,6 +543,12 @@ func registerOSModels() {
 			return TupleVal{ex.strConst(rel), nilErr()}
 		}
 		return TupleVal{ex.strConst(rp), nilErr()}
+	}
+	intrinsics["os.IsNotExist"] = func(ex *Exec, fn *ssa.Function, a []Value) Value {
+		return ex.tt.Bool(ex.errorsIs(a[0].(*IfaceVal), ex.pkgGlobalValue("io/fs", "ErrNotExist").(*IfaceVal), 0))
+	}
+	intrinsics["os.IsExist"] = func(ex *Exec, fn *ssa.Function, a []Value) Value {
+		return ex.tt.Bool(ex.errorsIs(a[0].(*IfaceVal), ex.pkgGlobalValue("io/fs", "ErrExist").(*IfaceVal), 0))
 	}
 	intrinsics["os.Getwd"] = func(ex *Exec, fn *ssa.Function, a []Value) Value {
 		return TupleVal{ex.strConst(ex.getFS().cwd), nilErr()}
